@@ -117,6 +117,8 @@ class Runner:
             self.ll = f1.result()
             self.native = f2.result()
         self.mod = build.load_module(self.ll)
+        if hasattr(self.chk, "prepare"):
+            self.chk.prepare(self)
         self.log("[build] IR %s (%d functions) + native replay binary in %.1fs" %
                  (os.path.basename(self.ll), len(self.mod.functions), time.time() - t))
 
@@ -366,6 +368,24 @@ class Runner:
             rec["why"] = "same entry and obligation id already replayed %d times" % nrep
             return
         self.replayed[key] = nrep + 1
+        if hasattr(self.chk, "custom_replay") and o["kind"] in getattr(self.chk, "CUSTOM_REPLAY_KINDS", ()):
+            confirmed, info = self.chk.custom_replay(self, ent, o)
+            rec["native"] = info
+            if not confirmed:
+                rec["status"] = "unconfirmed"
+                rec["why"] = "custom replay did not reproduce: %s" % (info,)
+                return
+            kf = self.match_known(ent, o, {}, [], dict(status="ok"))
+            rp = self.write_replay(ent, o, {}, [o["id"]], dict(status=str(info.get("status"))))
+            rec["replay"] = rp
+            if kf is not None:
+                rec["status"] = "known-finding"
+                rec["known"] = kf.get("what")
+                self.known_hits.append((kf, rec))
+            else:
+                rec["status"] = "violated"
+                self.violations.append(rec)
+            return
         inputs = self.inputs_of(eng)
         # model over the full path condition so that every input gets a consistent value
         full = list(o["pc"]) + eng.side + ([] if not r["used_defs"] else o.get("defs", [])) + [z3.Not(o["goal"])]
@@ -450,7 +470,8 @@ class Runner:
         d = os.path.join(ROOT, "replays", self.pid)
         os.makedirs(d, exist_ok=True)
         n = len(os.listdir(d))
-        name = "%s-%s-%d.json" % (ent.name, o["id"].replace(":", "_").replace("/", "_"), n)
+        import re as _re
+        name = "%s-%s-%d.json" % (ent.name, _re.sub(r"[^A-Za-z0-9_.()+-]", "_", o["id"])[:80], n)
         path = os.path.join(d, name)
         with open(path, "w") as f:
             json.dump(dict(property=self.pid, check_module=self.chk.__name__.split(".")[-1], entry=ent.name,
@@ -661,6 +682,7 @@ def _work(i):
         return _RUNNER.process_entry(i)
     except Exception:
         ent = _RUNNER.entries[i]
+        print("[worker] EXCEPTION %s: %s" % (ent.label(), traceback.format_exc()[-2500:]), flush=True)
         return dict(results=[], violations=[], known_hits=[], functions=set(), witness={}, engine_stats={},
                     solver_time={}, log=["[worker] EXCEPTION %s: %s" % (ent.label(), traceback.format_exc()[-2000:])],
                     incomplete=[dict(entry=ent.label(), why="worker exception: " + traceback.format_exc()[-800:])])
@@ -687,6 +709,14 @@ def replay_file(modname, path):
     chk = importlib.import_module("checks." + modname)
     with open(path) as f:
         rp = json.load(f)
+    if hasattr(chk, "custom_replay_file") and rp["failing_check"].split(":")[0] in getattr(chk, "CUSTOM_REPLAY_KINDS", ()):
+        bad, info = chk.custom_replay_file(rp)
+        print(info)
+        if bad:
+            print("VIOLATION property=%s replay=%s" % (rp["property"], path))
+            return 1
+        print("replay passes")
+        return 0
     native = build.build_native(chk.HARNESS, chk.SOURCES, getattr(chk, "DEFINES", ()))
     assignment = {k: (float.fromhex(v) if isinstance(v, str) else v) for k, v in rp["assignment"].items()}
     nat = build.run_native(native, rp["entry"], assignment, rp["params"])
